@@ -1,6 +1,7 @@
 package main
 
-func cmdCheck(args []string) int    { return 0 }
-func cmdExpect(args []string) int   { return 0 }
 func cmdSelftest(args []string) int { return 0 }
 func cmdReplay(args []string) int   { return 0 }
+
+// tryReplay attempts to reproduce a refuted obligation on the real code.
+func tryReplay(cr *checkRun, a *AggOb, path string) (bool, string) { return false, "" }
